@@ -86,6 +86,31 @@ theorem sortedSlices_atPos {c : Cfg} {strict orig : Bool} {recs : List Rec} {kep
         · simp only [hs, hg, if_true] at ho; exact strictOrder_atPos ho p hp'
       · simp only [hs] at ho; exact laxOrder_atPos ho p hp'
 
+/-- the direct-read fast path is sound: index lists 0,1,…,k-1 made of true positions select the
+    first k records of the file -/
+theorem take_eq_of_sequential {recs : List Rec} {kept : List (Nat × Rec)}
+    (hpos : ∀ p ∈ kept, AtPos recs p) (hseq : kept.map (·.1) = List.range kept.length) :
+    recs.take kept.length = kept.map (·.2) := by
+  apply List.ext_getElem?
+  intro i
+  rw [List.getElem?_take]
+  by_cases hi : i < kept.length
+  · have h1 : (kept.map (·.1))[i]? = some i := by rw [hseq]; simp [hi]
+    have h2 : kept[i].1 = i := by simpa [hi] using h1
+    have h3 := hpos kept[i] (List.getElem_mem hi)
+    unfold AtPos at h3
+    rw [h2] at h3
+    simp [hi, h3]
+  · simp [hi]
+
+theorem partialSlabs_eq {recs : List Rec} {kept : List (Nat × Rec)} (hpos : ∀ p ∈ kept, AtPos recs p) :
+    partialSlabs recs kept = kept.map (·.2.payload) := by
+  unfold partialSlabs isSequential
+  split
+  · rename_i h
+    rw [take_eq_of_sequential hpos (by simpa using h), List.map_map]; rfl
+  · rfl
+
 /-- records kept by the strict order, positions dropped -/
 def assembled (c : Cfg) (recs : List Rec) : Except Err (List Rec) :=
   (sortedSlices c true false recs).map (fun l => l.map (·.2))
